@@ -4,7 +4,10 @@ import (
 	"fmt"
 	"strconv"
 	"strings"
+	"sync"
 	"time"
+
+	"github.com/frankkopp/FrankyGo/internal/search"
 
 	rc "github.com/frankkopp/FrankyGo/verifh/refchess"
 )
@@ -39,6 +42,7 @@ var optionNames = func() []string {
 }()
 
 var c12Reproduced = map[string]bool{}
+var c12Unanswered = 0
 
 type c12ctx struct {
 	c     *Ctx
@@ -73,7 +77,11 @@ func (x *c12ctx) expectBestmove(what string, timeout time.Duration) (string, []s
 	x.note(seen)
 	if !ok {
 		dl, sig := engineDeadlocked(inProcessDump())
-		if dl {
+		if sig == "no engine goroutine" {
+			// nothing is searching and nothing is blocked: the go command was lost
+			c12Unanswered++
+			x.rep.Viol("go-unanswered:engine-idle", fmt.Sprintf("no bestmove after %s within %s although the engine is idle (no search or timer goroutine exists): the go command was dropped", what, timeout), x.payload(nil))
+		} else if dl {
 			x.rep.Viol("hang:no-bestmove:deadlock:"+sig, fmt.Sprintf("no bestmove after %s within %s; goroutine dump proves a deadlock (%s)", what, timeout, sig), x.payload(nil))
 		} else {
 			x.rep.Inconclusive(fmt.Sprintf("session %d: no bestmove after %s within %s (%s) transcript: %s", x.sid, what, timeout, sig, strings.Join(x.u.transcript(14), " || ")))
@@ -180,6 +188,28 @@ func (x *c12ctx) goDepth() {
 		}
 	}
 	x.quiescent()
+}
+
+// a GUI answering a bestmove at once: the next go is written the moment the
+// bestmove is read
+func (x *c12ctx) backToBack() {
+	n := 2 + x.r.Intn(3)
+	for i := 0; i < n && !x.dead; i++ {
+		d := 1 + x.r.Intn(3)
+		x.u.send(fmt.Sprintf("go depth %d", d))
+		x.goes++
+		x.rep.Inc("go_commands")
+		x.rep.Inc("go_depth")
+		if i > 0 {
+			x.rep.Inc("zero_delay_go_after_bestmove")
+		}
+		if _, _, ok := x.expectBestmove("go depth (back to back)", 20*time.Second); ok {
+			x.rep.Inc("bestmoves")
+		}
+	}
+	if !x.dead {
+		x.quiescent()
+	}
 }
 
 func (x *c12ctx) stopAndWait(what string) {
@@ -535,10 +565,32 @@ func (x *c12ctx) setOptionCheck() {
 
 func c12(c *Ctx) {
 	rep := c.Rep
+	// widen the window between "result sent" and "search marked as ended" with a
+	// seeded delay at the hook's run-exit event (the hook adds no synchronisation
+	// that the engine does not have: it only sleeps)
+	var hmu sync.Mutex
+	hr := SubRng(c.Seed, "c12/hook", c.Shard)
+	search.VerifTraceHook = func(ev string, a, b int64) {
+		if ev != "run-exit" {
+			return
+		}
+		hmu.Lock()
+		d := []time.Duration{0, 0, time.Millisecond, 4 * time.Millisecond}[hr.Intn(4)]
+		hmu.Unlock()
+		if d > 0 {
+			time.Sleep(d)
+		}
+	}
+	defer func() { search.VerifTraceHook = nil }()
 	nSess := c.Size(320, 15000)
 	var allSlow []string
 	for sid := 0; sid < nSess; sid++ {
 		if !c.Mine(sid) {
+			continue
+		}
+		if c12Unanswered >= 3 {
+			// every further lost go costs a full watchdog period and proves nothing new
+			rep.Inc("sessions_skipped_after_3_unanswered_go")
 			continue
 		}
 		r := SubRng(c.Seed, "c12/session", sid)
@@ -579,8 +631,10 @@ func c12(c *Ctx) {
 				x.goPonder()
 			case k < 14:
 				x.goTimed()
-			case k < 16:
+			case k < 15:
 				x.zeroDelayChain()
+			case k < 16:
+				x.backToBack()
 			case k < 17:
 				x.newGameEquality()
 			case k < 19:
